@@ -190,16 +190,9 @@ Definition delivered (l : list obs) : list row := flat_map (fun o => delivered_b
    the state of the (model of the) implementation just before the call.  It excludes
    (D1) _only_one_row (first/one/one_or_none/scalar...) on a uniqued view whose seen-set is not empty,
    (D2) _only_one_row on a CursorResult that is already soft-closed (exhausted) but not closed,
-   (D3) the use of a memoised getter (or memoised _unique_strategy) that captured another uniqueness
-        state than the view has now: ScalarResult.unique()/MappingResult.unique() after a fetch,
-   and, as a matter of domain, sizes below 1 and size-less fetchmany()/partitions() without yield_per. *)
-Definition ou_eqb (a b : option ustate) : bool :=
-  match a, b with
-  | None, None => true
-  | Some x, Some y => ustate_eqb x y
-  | _, _ => false
-  end.
-Definition getter_ok (g : slot) (v : view) : bool := ou_eqb (fst (use_getter g v)) (ufs v).
+   and, as a matter of domain, sizes below 1 and size-less fetchmany()/partitions() without yield_per.
+   (A third region, stale memoised getters after ScalarResult/MappingResult.unique(), is gone since these
+   methods are @_generative; the memoisation is still modelled and proved harmless.) *)
 Definition size_ok (n : option nat) (ypv : option nat) : bool :=
   match n with
   | Some n => 1 <=? n
@@ -212,21 +205,15 @@ Definition seen_empty (h : heap) (v : view) : bool :=
   end.
 Definition op_ok (i : istate) (o : op) : bool :=
   let v := cur_view i in
-  let closed := hardc (fs i) in
   match o with
-  | FetchOne => match kind v with VScalar => true | _ => closed || getter_ok GOne v end
-  | Next => closed || getter_ok GOne v
-  | IterFor _ => closed || getter_ok GIter v
-  | FetchMany n => size_ok n (yp i) && (closed || getter_ok GMany v)
-  | Partitions n k => (k =? 0) || (size_ok n (yp i) && (closed || getter_ok GMany v))
-  | All => closed || ou_eqb (eff_u v) (ufs v)
+  | FetchMany n => size_ok n (yp i)
+  | Partitions n k => (k =? 0) || size_ok n (yp i)
   | OnlyOne w =>
-      let '(second, _, scalar) := oo_flags w in
+      let '(_, _, scalar) := oo_flags w in
       match kind v, scalar with
       | VScalar, true | VMapping, true => true
-      | _, _ => closed ||
-                ((negb second || ou_eqb (eff_u v) (ufs v))      (* D3 *)
-                 && seen_empty (hp i) v                          (* D1 *)
+      | _, _ => hardc (fs i) ||
+                (seen_empty (hp i) v                             (* D1 *)
                  && negb (softc (fs i)))                         (* D2 *)
       end
   | _ => true
